@@ -193,6 +193,8 @@ func anySexp(a any) sx.S {
 		return sx.L(sx.A("i"), sx.A(strconv.Itoa(v)))
 	case int64:
 		return sx.L(sx.A("i"), sx.A(strconv.FormatInt(v, 10)))
+	case uint64:
+		return sx.L(sx.A("i"), sx.A(strconv.FormatUint(v, 10)))
 	case float64:
 		j, s := floatTokens(v)
 		return sx.L(sx.A("f"), sx.A(j), sx.A(s))
